@@ -792,8 +792,8 @@ Proof.
   - apply andb_true_iff in H. destruct H as [H1 H2]. apply classify_int_text; [exact H1|].
     apply Nat.ltb_lt in H2. exact H2.
   - repeat (apply andb_true_iff in H; destruct H as [H ?]).
-    rename H0 into Hl2, H1 into He2, H2 into Hl6.
-    apply Nat.eqb_eq in Hl2. apply Nat.eqb_eq in Hl6.
+    rename H0 into He2, H1 into Hl6.
+    apply Nat.eqb_eq in Hl6.
     change (sign_text neg ++ firstn 1 d6 ++ [c_dot] ++ skipn 1 d6 ++ [69%N] ++ [if eneg then c_minus else c_plus] ++ e2)
       with (float_text neg (firstn 1 d6) (skipn 1 d6) (Some (eneg, e2))).
     assert (Hd : forallb is_digit d6 = true) by (apply all_digits_spec; exact H).
@@ -836,7 +836,7 @@ Proof.
     + destruct neg; cbn; [discriminate|]. destruct ds; [congruence|discriminate].
     + rewrite forallb_app', (digits_numchar _ Hd). destruct neg; reflexivity.
   - repeat (apply andb_true_iff in H; destruct H as [H ?]).
-    apply all_digits_spec in H. destruct H as [_ Hd]. apply all_digits_spec in H1. destruct H1 as [_ He].
+    apply all_digits_spec in H. destruct H as [_ Hd]. apply all_digits_spec in H0. destruct H0 as [_ He].
     apply G.
     + destruct neg; [cbn; discriminate|]. destruct d6; cbn; discriminate.
     + rewrite <- (firstn_skipn 1 d6) in Hd. rewrite forallb_app' in Hd. apply andb_true_iff in Hd. destruct Hd as [Hd1 Hd2].
@@ -1949,7 +1949,7 @@ Proof.
   - apply andb_true_iff in H. destruct H as [H _]. rewrite forallb_app', (digits_numchar _ (all_digits_forall _ H)).
     destruct neg; reflexivity.
   - repeat (apply andb_true_iff in H; destruct H as [H ?]).
-    pose proof (all_digits_forall _ H) as Hd. pose proof (all_digits_forall _ H1) as He.
+    pose proof (all_digits_forall _ H) as Hd. pose proof (all_digits_forall _ H0) as He.
     rewrite <- (firstn_skipn 1 d6) in Hd. rewrite forallb_app' in Hd. apply andb_true_iff in Hd. destruct Hd as [Hd1 Hd2].
     rewrite !forallb_app'. rewrite (digits_numchar _ Hd1), (digits_numchar _ Hd2), (digits_numchar _ He).
     destruct neg; destruct eneg; reflexivity.
@@ -2772,4 +2772,257 @@ Proof.
     apply app_eq_nil in Ec. destruct Ec as [Ec _]. apply app_eq_nil in Ec. destruct Ec as [_ Ec]. discriminate.
   - rewrite <- Ec in *. rewrite universal_newlines_id by exact Hcr. rewrite splitlines_concat_addnl by exact Hsep.
     unfold parse_table. pose proof (parse_table_body_lemma SOther nolabel t Hb) as E. cbn beta iota in E. rewrite E. reflexivity.
+Qed.
+
+(* ================================================================================================ *)
+(** * run level, any number of tables: standard errors, matrices, phi, objective value, estimates *)
+
+(* ---- _parse_standard_errors, any number of tables: the LAST table of the file decides ---- *)
+Definition not_fixed (fx : list (text * bool)) (l : list (text * cell)) : list (text * cell) :=
+  filter (fun nc => match blookup fx (fst nc) with Some b => negb b | None => false end) l.
+Definition renamed (nm : list (text * text)) (l : list (text * cell)) : list (text * cell) :=
+  map (fun nc => (rename_with nm (fst nc), snd nc)) l.
+
+Lemma rerr3 : forall k : N, k <> 3%N -> forall A (x y : rres A), match k with 3%N => x | _ => y end = y.
+Proof. intros k H A x y. destruct k as [|p]; [reflexivity|]. do 2 (destruct p; try reflexivity). congruence. Qed.
+
+Theorem se_designated_lemma : forall ts t g pfix nm ses sesd abort,
+    last_opt ts = Some t -> ext_data_frame (tb_frame t) = ROk g ->
+    parse_standard_errors ts pfix nm = ROk (ses, sesd, abort) ->
+    (* row -1000000001 and row -1000000005 both present: the standard errors are the former, the sd/corr variant takes
+       the latter's OMEGA/SIGMA entries; fixed columns dropped, model names *)
+    (exists fx se_row sd_row,
+        get_fixed_parameters g pfix nm = ROk fx /\ standard_errors g = ROk se_row /\
+        omega_sigma_se_stdcorr g = ROk sd_row /\
+        ses = Some (renamed nm (not_fixed fx se_row)) /\
+        sesd = Some (update_with (renamed nm (not_fixed fx se_row)) (renamed nm (not_fixed fx sd_row))) /\ abort = false)
+    \/ (* no row -1000000001: nothing is reported (NaN) *)
+       (standard_errors g = RErr 3%N /\ ses = None /\ sesd = None /\ abort = false)
+    \/ (* row -1000000001 without row -1000000005: the covariance step was aborted *)
+       (exists se_row, standard_errors g = ROk se_row /\ omega_sigma_se_stdcorr g = RErr 3%N /\
+                       ses = None /\ sesd = None /\ abort = true).
+Proof.
+  intros ts t g pfix nm ses sesd abort Hl Hg H. unfold parse_standard_errors in H. rewrite Hl, Hg in H. cbn [rbind] in H.
+  destruct (standard_errors g) as [se_row|k|] eqn:Ese.
+  - destruct (get_fixed_parameters g pfix nm) as [fx|k|] eqn:Efx; cbn [rbind] in H; try discriminate.
+    destruct (existsb (fun nc => match blookup fx (fst nc) with None => true | Some _ => false end) se_row); [discriminate|].
+    destruct (omega_sigma_se_stdcorr g) as [sd_row|k|] eqn:Esd.
+    + left. exists fx, se_row, sd_row. inversion H. repeat split; reflexivity.
+    + right. right. exists se_row. destruct k as [|p]; try discriminate. do 2 (destruct p; try discriminate).
+      inversion H. repeat split; reflexivity.
+    + discriminate.
+  - right. left. destruct k as [|p]; try discriminate. do 2 (destruct p; try discriminate).
+    inversion H. repeat split; reflexivity.
+  - discriminate.
+Qed.
+
+(* ---- _parse_matrix ---- *)
+Theorem matrix_designated_lemma : forall raw nm tn m,
+    parse_matrix (Some raw) nm tn = ROk (Some m) ->
+    exists tables n tb m0,
+      read_table_file SCov false false raw = ROk tables /\ last_opt tn = Some n /\
+      find (fun tb => N.eqb (number_of tb) n) tables = Some tb /\
+      cov_data_frame (tb_frame tb) = ROk m0 /\ length (m_rows m0) = length (m_cols m0) /\
+      m = mkMatrix (map (rename_with nm) (m_rows m0)) (map (rename_with nm) (m_rows m0)) (m_vals m0).
+Proof.
+  intros raw nm tn m H. unfold parse_matrix in H.
+  destruct (read_table_file SCov false false raw) as [tables|k|] eqn:Er.
+  - destruct (last_opt tn) as [n|] eqn:El; [|discriminate].
+    destruct (find (fun tb => N.eqb (number_of tb) n) tables) as [tb|] eqn:Ef; [|discriminate].
+    destruct (cov_data_frame (tb_frame tb)) as [m0|k|] eqn:Ec; cbn [rbind] in H; try discriminate.
+    destruct (Nat.eqb (length (m_rows m0)) (length (m_cols m0))) eqn:En; cbn [negb] in H; [|discriminate].
+    apply Nat.eqb_eq in En. inversion H. exists tables, n, tb, m0. repeat split; try assumption; reflexivity.
+  - destruct k as [|[p|p|]]; discriminate.
+  - discriminate.
+Qed.
+
+(* ---- _parse_phi ---- *)
+Definition select_sub (idx : list nat) (m : list (list cell)) : list (list cell) :=
+  map (fun i => map (fun j => nth j (nth i m []) CNaN) idx) idx.
+
+Theorem phi_designated_lemma : forall raw nm rv pr,
+    parse_phi (Some raw) nm rv = ROk (Some pr) ->
+    exists tables tb keys idx mats c0,
+      read_table_file SPhi false false raw = ROk tables /\
+      (* the last table that is not an optimal-design table *)
+      last_opt (filter (fun tb => match design_of tb with None => true | Some _ => false end) tables) = Some tb /\
+      let v := phi_view_of (tb_frame tb) in
+      (* individuals with any non-zero entry, their ID and OBJ, the ETA / PHI columns as they are *)
+      pr_ids pr = p_ids v /\ pr_iofv pr = p_iofv v /\ pr_ie pr = p_etas v /\
+      p_eta_names v = c0 :: tl (p_eta_names v) /\
+      pr_ie_cols pr = map (rename_with (map (fun ia => (paren_name (firstn 3 c0) (fst ia), snd ia)) (number_from 1 rv)))
+                          (p_eta_names v) /\
+      (* one symmetric matrix per individual from the flattened ETC / PHC columns, re-ordered like the model's etas *)
+      rsequence (p_etcs v) = Some mats /\
+      rsequence (map (alookup nm) (p_etc_names v)) = Some keys /\
+      rsequence (map (fun r => index_of r keys) rv) = Some idx /\
+      pr_iec pr = map (select_sub idx) mats.
+Proof.
+  intros raw nm rv pr H. unfold parse_phi in H.
+  destruct (read_table_file SPhi false false raw) as [tables|k|] eqn:Er; cbn [rbind] in H; try discriminate.
+  destruct (last_opt (filter (fun tb => match design_of tb with None => true | Some _ => false end) tables)) as [tb|] eqn:El;
+    [|discriminate].
+  destruct (index_of s_ID (f_cols (tb_frame tb))); [|discriminate].
+  destruct (index_of s_OBJ (f_cols (tb_frame tb))); [|discriminate].
+  destruct (p_eta_names (phi_view_of (tb_frame tb))) as [|c0 rest] eqn:En; [discriminate|].
+  destruct (rsequence (map (alookup nm) (p_etc_names (phi_view_of (tb_frame tb))))) as [keys|] eqn:Ek; [|discriminate].
+  destruct (rsequence (map (fun r => index_of r keys) rv)) as [idx|] eqn:Ei; [|discriminate].
+  destruct (rsequence (p_etcs (phi_view_of (tb_frame tb)))) as [mats|] eqn:Em; [|discriminate].
+  destruct (has_dup keys); [discriminate|]. inversion H. subst pr. cbn [pr_ids pr_iofv pr_ie pr_ie_cols pr_iec].
+  exists tables, tb, keys, idx, mats, c0. cbv zeta. rewrite En. repeat split; try reflexivity; assumption.
+Qed.
+
+(* every matrix of p_etcs is the symmetric n x n matrix of its n(n+1)/2 flattened entries *)
+Theorem phi_etcs_symmetric : forall (f : frame) (k n : nat) (m : list (list cell)),
+    nth k (p_etcs (phi_view_of f)) None = Some m ->
+    (forall ir, In ir (phi_nonzero_rows f) -> length (select_cols f is_etc_col (snd ir)) = n * (n + 1) / 2) ->
+    k < length (phi_nonzero_rows f) ->
+    dims m n /\
+    forall r c, c <= r -> r < n ->
+      let x := select_cols f is_etc_col (snd (nth k (phi_nonzero_rows f) (0, []))) in
+      mget (CNum 0) m r c = nth (r * (r + 1) / 2 + c) x (CNum 0) /\ mget (CNum 0) m c r = nth (r * (r + 1) / 2 + c) x (CNum 0).
+Proof.
+  intros f k n m H Hlen Hk. unfold phi_view_of in H. cbn [p_etcs] in H.
+  rewrite (nth_indep _ None (flattened_to_symmetric (CNum 0) (select_cols f is_etc_col (snd (0, []))))) in H
+    by (rewrite map_length; exact Hk).
+  rewrite (map_nth (fun ir => flattened_to_symmetric (CNum 0) (select_cols f is_etc_col (snd ir)))) in H.
+  set (ir := nth k (phi_nonzero_rows f) (0, [])) in *.
+  assert (Hin : In ir (phi_nonzero_rows f)) by (apply nth_In; exact Hk).
+  destruct (flattened_symmetric_lemma (CNum 0) (select_cols f is_etc_col (snd ir)) n (Hlen ir Hin)) as [m' [E [D G]]].
+  rewrite E in H. inversion H. subst m'. split; [exact D|]. intros r c Hc Hr. cbv zeta. apply G; assumption.
+Qed.
+
+(* ---- any number of estimation tables: the LAST one that is not an optimal-design table decides ---- *)
+Lemma rmap_last {A B} (f : A -> rres B) : forall l l' x,
+    rmap f l = ROk l' -> last_opt l = Some x -> exists y, f x = ROk y /\ last_opt l' = Some y.
+Proof.
+  induction l as [|a l IH]; intros l' x H Hl; [discriminate|].
+  cbn [rmap] in H. destruct (f a) as [b|k|] eqn:Ea; cbn [rbind] in H; try discriminate.
+  destruct (rmap f l) as [bs|k|] eqn:El; cbn [rbind] in H; try discriminate. inversion H. subst l'.
+  destruct l as [|a2 l2].
+  - cbn in Hl. inversion Hl. subst a. cbn in El. inversion El. subst bs. exists b. split; [exact Ea|reflexivity].
+  - change (last_opt (a :: a2 :: l2)) with (last_opt (a2 :: l2)) in Hl.
+    destruct (IH bs x eq_refl Hl) as [y [Hy Hb]]. exists y. split; [exact Hy|].
+    destruct bs as [|b2 bs2]; [discriminate|]. exact Hb.
+Qed.
+
+Lemma last_opt_app {A} : forall (a b : list A), b <> [] -> last_opt (a ++ b) = last_opt b.
+Proof.
+  induction a as [|x a IH]; intros b Hb; [reflexivity|]. cbn [app].
+  destruct (a ++ b) as [|y r] eqn:E.
+  - destruct a; [cbn in E; congruence|discriminate].
+  - change (last_opt (x :: y :: r)) with (last_opt (y :: r)). rewrite <- E. apply IH. exact Hb.
+Qed.
+
+Lemma last_opt_flat_map {A B} (f : A -> list B) : forall l y,
+    last_opt l = Some y -> f y <> [] -> last_opt (flat_map f l) = last_opt (f y).
+Proof.
+  induction l as [|a l IH]; intros y Hl Hf; [discriminate|]. cbn [flat_map].
+  destruct l as [|a2 l2].
+  - cbn in Hl. inversion Hl. subst a. cbn [flat_map]. rewrite app_nil_r. reflexivity.
+  - change (last_opt (a :: a2 :: l2)) with (last_opt (a2 :: l2)) in Hl.
+    rewrite last_opt_app.
+    + apply IH; assumption.
+    + intro E. apply last_opt_In in Hl. destruct (f y) as [|z zs] eqn:Efy; [congruence|].
+      assert (Hz : In z (flat_map f (a2 :: l2))) by (apply in_flat_map; exists y; split; [exact Hl|rewrite Efy; left; reflexivity]).
+      rewrite E in Hz. contradiction.
+Qed.
+
+Theorem ofv_designated_any_lemma : forall ts k t g c entries,
+    last_opt (est_tables ts) = Some (k, t) -> ext_data_frame (tb_frame t) = ROk g ->
+    g_final_obj_eq_last g = true ->
+    parse_ofv ts = ROk (c, entries) ->
+    get_ofv g code_final = ROk c.
+Proof.
+  intros ts k t g c entries Hl Hg HF H. unfold parse_ofv in H.
+  destruct (rmap (fun kt => rbind (iter_frame (snd kt)) (fun gh => ROk (fst kt, gh))) (est_tables ts)) as [l|e|] eqn:Er;
+    cbn [rbind] in H; try discriminate.
+  destruct (rmap_last _ _ _ _ Er Hl) as [y [Hy Hly]]. cbn [fst snd] in Hy.
+  unfold iter_frame in Hy. rewrite Hg in Hy. cbn [rbind] in Hy.
+  destruct (has_str (col_cells g s_OBJ)); [discriminate|].
+  rewrite (iter_df_printed_iterations g HF) in Hy. cbn [rbind] in Hy. inversion Hy. subst y. clear Hy.
+  rewrite Hly in H.
+  set (h := mkFrame (f_cols g) (filter (fun ir => cell_ge0 (iter_cell g (snd ir))) (f_rows g))) in *.
+  unfold g_final_obj_eq_last in HF.
+  destruct (last_opt (rows_with g code_final)) as [[i1 rf]|] eqn:L1; [|discriminate].
+  destruct (last_opt (filter (fun ir => cell_ge0 (iter_cell g (snd ir))) (f_rows g))) as [[i2 rl]|] eqn:L2; [|discriminate].
+  set (E := fun kgh : nat * (frame * frame) => let '(k0, (g0, h0)) := kgh in
+               map (fun ir => (k0, iter_cell h0 (snd ir), obj_cell h0 (snd ir))) (f_rows h0)) in *.
+  assert (Hne : E (k, (g, h)) <> []).
+  { unfold E, h. cbn [f_rows]. intro E0. apply map_eq_nil in E0. rewrite E0 in L2. discriminate. }
+  rewrite (last_opt_flat_map E l (k, (g, h)) Hly Hne) in H.
+  unfold E in H. cbn [f_rows h] in H. rewrite last_opt_map, L2 in H. cbn [option_map snd] in H.
+  apply negb_true_iff in HF.
+  assert (Hobj : obj_cell h rl = obj_cell g rl) by reflexivity. rewrite Hobj in H.
+  destruct (obj_cell g rl) as [yv| |s] eqn:Eo.
+  - destruct (final_ofv g) as [c0|e|] eqn:Fo; cbn [rbind] in H; try discriminate.
+    inversion H. subst c0.
+    unfold final_ofv in Fo. destruct (get_ofv g code_final) as [c1|e|] eqn:Go.
+    + exact Fo.
+    + exfalso. unfold get_ofv in Go. destruct (rows_with g code_final) as [|x xs]; [discriminate L1|].
+      destruct x as [ix rx]. destruct xs; discriminate.
+    + discriminate.
+  - destruct (obj_cell g rf); discriminate.
+  - destruct (obj_cell g rf); discriminate.
+Qed.
+
+Definition keep_of (fx : list (text * bool)) (pcols : list text) : list bool :=
+  map (fun c => negb (existsb (text_eqb c) (fixed_names_of fx pcols))) pcols.
+
+Theorem pe_designated_any_lemma : forall ts k t g pfix nm fpe cols rows sd,
+    last_opt (est_tables ts) = Some (k, t) -> ext_data_frame (tb_frame t) = ROk g ->
+    g_final_obj_eq_last g = true ->
+    parse_parameter_estimates ts pfix nm = ROk (fpe, cols, rows, sd) ->
+    exists fx i rl,
+      get_fixed_parameters g pfix nm = ROk fx /\
+      last_opt (filter (fun ir => cell_ge0 (iter_cell g (snd ir))) (f_rows g)) = Some (i, rl) /\
+      let pcols := drop_first_last (f_cols g) in
+      let lastvals := keep_mask (keep_of fx pcols) (drop_first_last rl) in
+      if forallb is_nan lastvals
+      then (* the last printed iteration carries no value in any estimated column: NaN under the same names *)
+           fpe = combine cols lastvals
+      else exists fe, final_parameter_estimates g = ROk fe /\
+                      fpe = map (fun nc => (rename_with nm (fst nc), snd nc)) (drop_names (fixed_names_of fx pcols) fe).
+Proof.
+  intros ts k t g pfix nm fpe cols rows sd Hl Hg HF H. unfold parse_parameter_estimates in H.
+  match type of H with rbind (rmap ?F0 _) _ = _ => set (F := F0) in * end.
+  destruct (rmap F (est_tables ts)) as [l|e|] eqn:Er; cbn [rbind] in H; try discriminate.
+  destruct (rmap_last F _ _ _ Er Hl) as [y [Hy Hly]]. unfold F in Hy. cbn [fst snd] in Hy.
+  unfold iter_frame in Hy. rewrite Hg in Hy. cbn [rbind] in Hy.
+  destruct (has_str (col_cells g s_OBJ)); [discriminate|].
+  rewrite (iter_df_printed_iterations g HF) in Hy. cbn [rbind fst] in Hy.
+  destruct (get_fixed_parameters g pfix nm) as [fx|e|] eqn:Efx; cbn [rbind] in Hy; try discriminate.
+  inversion Hy. subst y. clear Hy.
+  set (h := mkFrame (f_cols g) (filter (fun ir => cell_ge0 (iter_cell g (snd ir))) (f_rows g))) in *.
+  rewrite Hly in H.
+  pose proof HF as HF'. unfold g_final_obj_eq_last in HF'.
+  destruct (last_opt (rows_with g code_final)) as [[i1 rf]|] eqn:L1; [|discriminate].
+  destruct (last_opt (filter (fun ir => cell_ge0 (iter_cell g (snd ir))) (f_rows g))) as [[i2 rl]|] eqn:L2; [|discriminate].
+  exists fx, i2, rl. split; [reflexivity|]. split; [reflexivity|].
+  match type of H with context [map ?P0 l] => set (P := P0) in * end.
+  destruct (existsb _ l); [discriminate|].
+  destruct (map P l) as [|p0 per'] eqn:Ep; [discriminate|].
+  assert (Hlp : last_opt (p0 :: per') = Some (P (k, (g, h), fx))).
+  { rewrite <- Ep. rewrite last_opt_map, Hly. reflexivity. }
+  destruct p0 as [[[[k0 h0] fn0] cols0] keep0].
+  destruct (negb (forallb _ (_ :: per'))); [discriminate|].
+  destruct (has_dup (map (rename_with nm) cols0)); [discriminate|].
+  match type of H with context [flat_map ?R0 _] => set (R := R0) in * end.
+  assert (HPl : P (k, (g, h), fx) = (k, h, fixed_names_of fx (drop_first_last (f_cols g)),
+                                      keep_mask (keep_of fx (drop_first_last (f_cols g))) (drop_first_last (f_cols g)),
+                                      keep_of fx (drop_first_last (f_cols g)))) by reflexivity.
+  assert (Hne : R (P (k, (g, h), fx)) <> []).
+  { rewrite HPl. unfold R, h. cbn [f_rows]. intro E0. apply map_eq_nil in E0. rewrite E0 in L2. discriminate. }
+  rewrite (last_opt_flat_map R _ _ Hlp Hne) in H. rewrite Hlp in H.
+  rewrite HPl in H. unfold R in H. cbn [f_rows h] in H. rewrite last_opt_map, L2 in H. cbn [option_map snd] in H.
+  cbv zeta.
+  destruct (forallb is_nan (keep_mask (keep_of fx (drop_first_last (f_cols g))) (drop_first_last rl))) eqn:En.
+  - cbn [rbind] in H.
+    destruct (omega_sigma_stdcorr g) as [sdv|e|]; try discriminate;
+      [|destruct e as [|[[p|p|]|p|]]; try discriminate]; inversion H; subst; reflexivity.
+  - destruct (final_parameter_estimates g) as [fe|e|] eqn:Efe; cbn [rbind] in H; try discriminate.
+    destruct (negb (forallb _ _)); cbn [rbind] in H; [discriminate|].
+    exists fe. split; [reflexivity|].
+    destruct (omega_sigma_stdcorr g) as [sdv|e|]; try discriminate;
+      [|destruct e as [|[[p|p|]|p|]]; try discriminate]; inversion H; subst; reflexivity.
 Qed.
